@@ -17,6 +17,7 @@ for m in cat['edit']:
     tmp = tempfile.mkdtemp(prefix='selftest_')
     try:
         shutil.copytree(os.path.join(REPO, 'src'), os.path.join(tmp, 'src'))
+        for f_ in ('Cargo.toml', 'Cargo.lock'): shutil.copy(os.path.join(REPO, f_), tmp)
         p = os.path.join(tmp, m['file'])
         s = open(p).read()
         n = s.count(m['find'])
